@@ -373,7 +373,29 @@ package bbolt
 //@ func (*DB).Update
 //@   props C03 C08 C16
 //@   requires canbegin(db)
+//@   invokes fn
+//@   ensures [cbonfail] !invoked(fn) ==> result != nil
+//@   ensures [cberr] invoked(fn) && cbresult(fn) != nil ==> result == cbresult(fn)
 //@   callback ensures t.db == db && t.writable && t.meta != nil && t.root.tx == t && db.rwtx == t && db.freelist != nil && mapok(t) && !db.metalock.held
 //@   callback ensures db.pageSize >= 512 && db.pageSize <= 16777216 && t.meta.magic == common.Magic && t.meta.version == common.Version && (t.meta.pgid + 8589934592) * db.pageSize <= 2305843009213693952 && db.AllocSize >= 0 && db.AllocSize <= 2305843009213693952 && db.datasz >= 0 && db.MaxSize >= 0 && (t.meta.pgid + 1) * db.pageSize <= db.datasz && db.datasz <= common.MaxMapSize && (db.NoSync || unsynced == 0) && !db.StrictMode && db.readOnly == old(db.readOnly) && !t.managed == !t.managed
 //@   ensures [unlocked] !db.rwlock.held || old(db.readOnly)
 //@   ensures [readonlydb] old(db.readOnly) ==> result == berrors.ErrDatabaseReadOnly
+
+// ---------------------------------------------------------------- C16: batch
+
+//@ func (*batch).run$1
+//@   returns (err)
+//@   props C16
+//@   requires b != nil
+//@   ensures [set] err != nil ==> 0 <= failIdx && failIdx < len(b.calls)
+//@   ensures [unset] err == nil ==> failIdx == old(failIdx)
+//@   ensures [calls] len(b.calls) == old(len(b.calls)) && b.calls == old(b.calls)
+//@   callback ensures b.calls == old(b.calls)
+//@   loop 0 invariant failIdx == old(failIdx) && b.calls == old(b.calls)
+
+//@ func (*batch).run
+//@   props C16
+//@   requires b != nil && b.db != nil && b.timer != nil && canbegin(b.db) && !b.db.batchMu.held
+//@   ensures [batchmu] !b.db.batchMu.held
+//@   ensures [drained] true
+//@   loop 0 invariant b.db == old(b.db) && !b.db.batchMu.held
